@@ -16,6 +16,7 @@ theorem step_of_frame {c : Conn} {b rest : Bytes} {m : Msg} (hs : c.spool = b ++
           .stop (processSignaling (c.consume b.length) m).1 (processSignaling (c.consume b.length) m).2
         else
           .next (processSignaling (c.consume b.length) m).1 (processSignaling (c.consume b.length) m).2
+      else if m.code = 0 then .next (c.consume b.length) []
       else if c.csm.isNone then
         .stop ((c.consume b.length).note (abortOuts txtNoCsm none)) (abortOuts txtNoCsm none)
       else .next (c.consume b.length) (dispatchIncoming m) := by
@@ -217,8 +218,11 @@ theorem step_csm (c : Conn) :
   · rw [hs] at hstep
     rcases hstep with h | h
     · simp only [Step.next.injEq] at h
-      rw [← h.1]
-      exact ⟨fun hn => absurd hn h4, fun hc => hc⟩
+      rw [← h.1, ← h.2]
+      refine ⟨fun hn => ⟨hn, ?_⟩, fun hc => hc⟩
+      rcases h4 with h0 | h4
+      · rw [deliver_empty h0]; intro x hx; cases hx
+      · exact absurd hn h4
     · cases h
 
 theorem drain_csm : ∀ (n : Nat) (c : Conn), c.spool.length < n →
@@ -278,7 +282,7 @@ theorem feedAll_csm : ∀ (cs : List Bytes) (c : Conn),
 
 /-- `Stream M ms s`: `s` is the concatenation of RFC 8323 frames, each at most `M` bytes long, of
 the messages `ms`, which are requests/responses/empty messages (not signalling) with legal
-option values -/
+option values (`Msg.legal`: values that `Options.decode` carries unchanged) -/
 inductive Stream (M : Nat) : List Msg → Bytes → Prop
   | nil : Stream M [] []
   | cons {m : Msg} {b : Bytes} {ms : List Msg} {s : Bytes} :
@@ -289,10 +293,11 @@ theorem Conn.consume_consume_spool (c : Conn) (n : Nat) :
     ({ c.consume n with spool := [] } : Conn) = { c with spool := [] } := rfl
 
 /-- once the CSM is in, a stream of whole frames is dispatched message by message, empty
-messages excepted, and the spool ends empty -/
+messages excepted, and the spool ends empty; as long as the CSM is not in, the same holds for a
+stream of empty messages (all of them ignored) -/
 theorem drain_stream {M : Nat} {ms : List Msg} {s : Bytes} (h : Stream M ms s) :
-    ∀ (c : Conn), c.maxSize = M → c.csm ≠ none → c.spool = s →
-      drain c = ({ c with spool := [] }, ms.flatMap dispatchIncoming, false) := by
+    ∀ (c : Conn), c.maxSize = M → (c.csm ≠ none ∨ ∀ m ∈ ms, m.code = 0) → c.spool = s →
+      drain c = ({ c with spool := [] }, ms.flatMap deliver, false) := by
   induction h with
   | nil =>
     intro c _ _ hs
@@ -303,14 +308,47 @@ theorem drain_stream {M : Nat} {ms : List Msg} {s : Bytes} (h : Stream M ms s) :
     intro c hM hcsm hs
     obtain ⟨hrest, hstep⟩ := step_of_frame hs hb hm (by omega)
     have h1 : ¬ m.code ≥ 224 := by omega
-    have h2 : c.csm.isNone = false := by
-      cases hc : c.csm with
-      | none => exact absurd hc hcsm
-      | some _ => rfl
-    simp only [h1, ↓reduceIte, h2, Bool.false_eq_true] at hstep
-    rw [drain_eq, hstep]
+    have hnext : step c = .next (c.consume b.length) (deliver m) := by
+      by_cases h0 : m.code = 0
+      · simp only [h1, ↓reduceIte] at hstep
+        simp only [h0, ↓reduceIte] at hstep
+        rw [hstep, deliver_empty h0]
+      · have hne : c.csm ≠ none := by
+          rcases hcsm with h | h
+          · exact h
+          · exact absurd (h m List.mem_cons_self) h0
+        have h2 : c.csm.isNone = false := by
+          cases hc : c.csm with
+          | none => exact absurd hc hne
+          | some _ => rfl
+        simp only [h1, ↓reduceIte] at hstep
+        simp only [h0, ↓reduceIte, h2, Bool.false_eq_true] at hstep
+        rw [hstep, deliver_nonempty h0]
+    rw [drain_eq, hnext]
     simp only
-    rw [ih (c.consume b.length) (by simp [hM]) (by simpa using hcsm) hrest]
+    have hcsm' : (c.consume b.length).csm ≠ none ∨ ∀ m' ∈ ms, m'.code = 0 := by
+      rcases hcsm with h | h
+      · exact Or.inl (by simpa using h)
+      · exact Or.inr (fun m' hm' => h m' (List.mem_cons_of_mem _ hm'))
+    rw [ih (c.consume b.length) (by simp [hM]) hcsm' hrest]
     simp [Conn.consume_consume_spool]
+
+/-- a stream of empty messages leaves no output at all -/
+theorem flatMap_deliver_empty {ms : List Msg} (h : ∀ m ∈ ms, m.code = 0) :
+    ms.flatMap deliver = [] := by
+  induction ms with
+  | nil => rfl
+  | cons m ms ih =>
+    simp only [List.flatMap_cons, deliver_empty (h m List.mem_cons_self), List.nil_append]
+    exact ih (fun m' hm' => h m' (List.mem_cons_of_mem _ hm'))
+
+/-- two streams one after the other are a stream -/
+theorem Stream.append {M : Nat} {ms ms' : List Msg} {s s' : Bytes} (h : Stream M ms s)
+    (h' : Stream M ms' s') : Stream M (ms ++ ms') (s ++ s') := by
+  induction h with
+  | nil => simpa using h'
+  | @cons m b ms s hb hm hcode hsz _ ih =>
+    rw [List.cons_append, List.append_assoc]
+    exact .cons hb hm hcode hsz ih
 
 end Aiocoap.Tcp
